@@ -1842,6 +1842,17 @@ func (a *anchors) provenUnused(r *report.Report, rule string, f *ssa.Function, m
 		}
 		why = append(why, t.form+" at "+instrPos(p, t.at)+": "+bad)
 	}
+	// second argument: forward must-analysis (any loop shape)
+	all := true
+	for _, L := range loads {
+		if !a.flowUnused(f, m, L) {
+			all = false
+		}
+	}
+	if all {
+		r.OK(rule, key, pos, fmt.Sprintf("forward must-analysis: at each of the %d reads of m.nextPID that are assigned, on every path the current value of m.nextPID has been looked up in m.esContexts after the last store to it and found absent", len(loads)))
+		return
+	}
 	r.Bad(rule, key, pos, "the automatically assigned PID is not proven unused at the point of assignment — "+strings.Join(why, " | "))
 }
 
